@@ -107,6 +107,14 @@ func (c *Ctx) readerKeys() map[string]*readerKey {
 	info := c.info("type1")
 	fd := c.funcDecl("type1", "", "Read")
 	out := map[string]*readerKey{}
+	decls := map[types.Object]*ast.FuncDecl{}
+	for _, f := range c.pkg("type1").Syntax {
+		for _, d := range f.Decls {
+			if x, ok := d.(*ast.FuncDecl); ok && x.Body != nil && x.Recv == nil {
+				decls[info.Defs[x.Name]] = x
+			}
+		}
+	}
 	var visit func(n ast.Node, lhs []string)
 	record := func(ix *ast.IndexExpr, typ string, lhs []string) {
 		k, ok := constStrOf(info, ix.Index)
@@ -147,11 +155,24 @@ func (c *Ctx) readerKeys() map[string]*readerKey {
 					return false
 				}
 			case *ast.CallExpr:
-				if types.ExprString(m.Fun) == "getReal" && len(m.Args) == 1 {
-					if ix, ok := m.Args[0].(*ast.IndexExpr); ok {
-						record(ix, "Real", lhs)
-						record(ix, "Integer", lhs)
-						return false
+				// a helper of the package applied to a dictionary entry: the types the helper
+				// asserts on its parameter are the types the reader accepts for the entry
+				if id, ok := m.Fun.(*ast.Ident); ok {
+					if d := decls[info.Uses[id]]; d != nil {
+						handled := false
+						for ai, a := range m.Args {
+							if ix, ok := a.(*ast.IndexExpr); ok {
+								if _, isConst := constStrOf(info, ix.Index); isConst {
+									for _, t := range paramAssertedTypes(info, d, ai) {
+										record(ix, t, lhs)
+										handled = true
+									}
+								}
+							}
+						}
+						if handled {
+							return false
+						}
 					}
 				}
 			case *ast.IndexExpr:
@@ -239,12 +260,17 @@ func runRoundTrip(c *Ctx, closure bool) {
 			p := c.pkg("type1")
 			for _, f := range p.Syntax {
 				ast.Inspect(f, func(n ast.Node) bool {
-					if vs, ok := n.(*ast.ValueSpec); ok && len(vs.Names) == 1 && vs.Names[0].Name == "dateFormats" && len(vs.Values) == 1 {
+					// the reader's layouts: a list of string constants that are time layouts
+					if vs, ok := n.(*ast.ValueSpec); ok && len(vs.Names) == 1 && len(vs.Values) == 1 {
 						if cl, ok := vs.Values[0].(*ast.CompositeLit); ok {
+							var l []string
 							for _, e := range cl.Elts {
-								if s, ok := constStrOf(info, e); ok {
-									layouts = append(layouts, s)
+								if s, ok := constStrOf(info, e); ok && strings.Contains(s, "2006") {
+									l = append(l, s)
 								}
+							}
+							if len(l) == len(cl.Elts) && len(l) > 0 {
+								layouts = append(layouts, l...)
 							}
 						}
 					}
@@ -262,8 +288,30 @@ func runRoundTrip(c *Ctx, closure bool) {
 			// written on a %%CreationDate: line, read from DSC key CreationDate
 			flat := t.flatText()
 			okKey := strings.Contains(flat, "%%CreationDate: ⟦.CreationDate.Format")
-			rd := nodeString(c, c.funcDecl("type1", "", "Read").Body)
-			c.check(okKey && strings.Contains(rd, `c.Key != "CreationDate"`), "RT-DATE", "type1 template / type1.Read", "the date travels in the %%CreationDate: comment", token.NoPos, "", "the creation date is not written as a `%%CreationDate:` DSC comment that the reader looks for")
+			// the reader (or a helper of it) compares a comment key with "CreationDate"
+			readsKey := false
+			for _, d := range c.declsFrom("type1", c.funcDecl("type1", "", "Read"), 2) {
+				ast.Inspect(d.Body, func(n ast.Node) bool {
+					switch x := n.(type) {
+					case *ast.BinaryExpr:
+						if x.Op == token.EQL || x.Op == token.NEQ {
+							for _, e := range []ast.Expr{x.X, x.Y} {
+								if s, ok := constStrOf(info, e); ok && s == "CreationDate" {
+									readsKey = true
+								}
+							}
+						}
+					case *ast.CaseClause:
+						for _, e := range x.List {
+							if s, ok := constStrOf(info, e); ok && s == "CreationDate" {
+								readsKey = true
+							}
+						}
+					}
+					return true
+				})
+			}
+			c.check(okKey && readsKey, "RT-DATE", "type1 template / type1.Read", "the date travels in the %%CreationDate: comment", token.NoPos, "", "the creation date is not written as a `%%CreationDate:` DSC comment that the reader looks for")
 		}
 
 		// ---------------- strings
@@ -987,4 +1035,65 @@ func (c *Ctx) tmplCond(pipe *parse.PipeNode, key string, v float64) (bool, bool)
 		return r.b, true
 	}
 	return r.f != 0, true
+}
+
+// paramAssertedTypes: the PostScript object types a function asserts on its idx-th parameter
+// (type assertions and type-switch cases), e.g. getReal → Real, Integer.
+func paramAssertedTypes(info *types.Info, d *ast.FuncDecl, idx int) []string {
+	var param types.Object
+	k := 0
+	for _, fl := range d.Type.Params.List {
+		for _, n := range fl.Names {
+			if k == idx {
+				param = info.Defs[n]
+			}
+			k++
+		}
+	}
+	if param == nil {
+		return nil
+	}
+	set := map[string]bool{}
+	name := func(e ast.Expr) string {
+		t := types.ExprString(e)
+		return strings.TrimPrefix(t, "postscript.")
+	}
+	isParam := func(e ast.Expr) bool {
+		id, ok := ast.Unparen(e).(*ast.Ident)
+		return ok && info.ObjectOf(id) == param
+	}
+	ast.Inspect(d.Body, func(n ast.Node) bool {
+		switch x := n.(type) {
+		case *ast.TypeAssertExpr:
+			if x.Type != nil && isParam(x.X) {
+				set[name(x.Type)] = true
+			}
+		case *ast.TypeSwitchStmt:
+			var subj ast.Expr
+			switch a := x.Assign.(type) {
+			case *ast.AssignStmt:
+				if ta, ok := a.Rhs[0].(*ast.TypeAssertExpr); ok {
+					subj = ta.X
+				}
+			case *ast.ExprStmt:
+				if ta, ok := a.X.(*ast.TypeAssertExpr); ok {
+					subj = ta.X
+				}
+			}
+			if subj != nil && isParam(subj) {
+				for _, cc := range x.Body.List {
+					for _, e := range cc.(*ast.CaseClause).List {
+						set[name(e)] = true
+					}
+				}
+			}
+		}
+		return true
+	})
+	var out []string
+	for t := range set {
+		out = append(out, t)
+	}
+	sort.Strings(out)
+	return out
 }
